@@ -415,6 +415,79 @@ def conc_text(r):
                 r["missed_p"], r["live_p"], conc_addressed(r)))
 
 
+# ------------------------------------------------------------------ clean-up passes / broadcasts inside the restore's filter loop
+RHDR = "From SioV Require Import Base.GoSem Adapter.Session Adapter.SessionCheck Adapter.SessionSlice Adapter.SessionSliceCheck.\n"
+
+
+def race_term(c):
+    n0 = c["nold"] + 1 + len(c["missed"])
+    l0 = ["pk %s 0%%Z 1%%N" % gN(i + 1) for i in range(c["nold"])]
+    l0.append("pk %s 4%%Z 1%%N" % gN(c["nold"] + 1))
+    l0 += ["pk %s 4%%Z %s" % (gN(c["nold"] + 2 + j), gN(r)) for j, r in enumerate(c["missed"])]
+    acts, nxt = [], n0
+    for x in c["actions"]:
+        if x == "C":
+            acts.append("TClean 5%Z")
+        else:
+            nxt += 1
+            acts.append("TBroadcast (pk %s 5%%Z 1%%N)" % gN(nxt))
+    return "mkRace %s 3%%Z [1%%N] %s %s %s %s %s %s %s %s %s" % (
+        gbool(c["inside"]), gN(c["nold"] + 1), glist(l0), gnat_(c["fire_at"]), glist(acts),
+        gnat_(len(c["missed"]) - c["fire_at"]), gbool(c["ok"]), gbool(c["panicked"]),
+        nl([x if x > 0 else 999999 for x in c["replay"]]), nl(c["log_after"]))
+
+
+def gnat_(n):
+    return "%d%%nat" % n
+
+
+def race_text(r):
+    return ("log: %d packet(s) older than the window, the offset packet, then packets to rooms %s (session room 1); "
+            "RestoreSession with %s fired from the %d-th Contains call of its filter loop (C = clean-up pass that trims, "
+            "B = broadcast): ok=%s panic=%s replayed packets %s (numbered in emission order, offset = %d), disturbance "
+            "completed inside the restore: %s; the replay must be every packet after the offset, in order, as of one "
+            "instant" % (r["nold"], r["missed"], r["actions"], r["fire_at"], r["ok"], r["panicked"], r["replay"],
+                         r["nold"] + 1, r["inside"]))
+
+
+def race_suite(ctx, vh, n):
+    t0 = time.time()
+    rows = ctx.vh_jsonl(vh, "session", ["-mode", "race", "-seed", ctx.seed, "-n", n, "-tick", 50, "-par", 16])
+    ctx.note("suite race: harness %.1fs" % (time.time() - t0))
+    if rows is None:
+        return
+    late = [r for r in rows if r.get("late")]
+    rows = [r for r in rows if not r.get("late")]
+    ctx.indeterminate += len(late)
+    terms = [race_term(r) for r in rows]
+    for r in rows:
+        trims = "C" in r["actions"] and r["nold"] > 0
+        ctx.count(1, nontrivial_key=("race", r["nold"], tuple(r["missed"]), r["fire_at"], r["actions"]) if trims else None,
+                  dist="race:%s" % ("trimming" if trims else "other"))
+    if rows:
+        ctx.sample({"suite": "session/race", "case": rows[len(rows) // 2]}, limit=8)
+    bad_both = ctx.coq_eval_cases("race_both", RHDR, terms, "both_race", shard=200)
+    sub = [terms[i] for i in bad_both]
+    bad_oracle = [bad_both[j] for j in ctx.coq_eval_cases("race_oracle", RHDR, sub, "oracle_race", shard=200)]
+    bad_agree = [bad_both[j] for j in ctx.coq_eval_cases("race_agree", RHDR, sub, "agree_race", shard=200)]
+    enough = len(rows) >= max(10, (len(rows) + len(late)) // 2)
+    ctx.obligation("correspondence:session/race", "correspondence", not bad_agree and enough,
+                   "%d restores disturbed from inside the filter loop (%d late dropped), %d disagree" % (
+                       len(rows), len(late), len(bad_agree)))
+    ctx.obligation("oracle:session/race", "oracle", not bad_oracle and enough, "%d cases, %d fail" % (len(rows), len(bad_oracle)))
+    if not enough:
+        ctx.violation("race rig: only %d of %d runs were on time" % (len(rows), len(rows) + len(late)),
+                      {"kind": "correspondence-broken", "suite": "session/race"}, no_input=True)
+    for i in sorted(bad_oracle, key=lambda i: (rows[i]["panicked"], len(rows[i]["missed"])))[:3]:
+        ctx.violation(race_text(rows[i]), {"kind": "failing-input", "engine": "session -mode race", "case": rows[i]})
+    if bad_agree and not bad_oracle:
+        i = bad_agree[0]
+        ctx.violation("RestoreSession no longer behaves like the model Adapter/SessionSlice.v (Locked / Copy) when "
+                      "disturbed from inside its filter loop: %s" % race_text(rows[i]),
+                      {"kind": "correspondence-broken", "suite": "session/race",
+                       "theorems": ["C08_restore_consistent_snapshot"], "case": rows[i]}, no_input=True)
+
+
 def run(ctx):
     ctx.rule = ("histories of Broadcast(to/except, event / event-with-ack / ack) / PersistSession / clean-up pass / "
                 "RestoreSession / time steps on the real session-aware adapter; non-trivial = a restore succeeded with "
@@ -427,7 +500,7 @@ def run(ctx):
     ctx.assumptions = ["yeast offset ids handed out along a history are pairwise distinct (checked on every history)",
                        "time.Now() is non-decreasing"]
     t0 = time.time()
-    ctx.proofs(modules=["Adapter/SessionCheck", "Adapter/SessionConcCheck"])
+    ctx.proofs(modules=["Adapter/SessionCheck", "Adapter/SessionConcCheck", "Adapter/SessionSliceCheck"])
     ctx.note("proofs+audit %.1fs" % (time.time() - t0))
     t0 = time.time()
     vh = ctx.go_build()
@@ -454,6 +527,8 @@ def run(ctx):
         live_suite(ctx, vh, "live-binary", ["-seed", ctx.seed + 1, "-n", 16 if q else 160, "-par", 6, "-bin"])
     if want("conc"):
         conc_suite(ctx, vh, 150 if q else 3000)
+    if want("race"):
+        race_suite(ctx, vh, 40 if q else 600)
     if want("timed"):
         history_suite(ctx, vh, "timed", ["-mode", "timed", "-seed", ctx.seed, "-n", 150 if q else 1500, "-tick", 20,
                                          "-par", 16])
